@@ -85,6 +85,51 @@ def gen_desc(r):
     return s[:p] + r.choice(ALPHA) + s[p + (1 if r.random() < 0.5 else 0):]
 
 
+# what suggest_pattern escapes (each becomes backslash + character in the pattern), other punctuation statements carry, and the
+# stuff of long processor descriptions: host names, billing paths, reference codes
+META = list('.*+?^${}()|[]\\')
+PUNCT = list("/-#&:,'_=@%")
+LONG_WORDS = ['WWW', 'SHOP', 'EXAMPLE', 'COM', 'CO', 'UK', 'BILLING', 'HELP', 'MARKETPLACE', 'ONLINE', 'ORDERS', 'PAYMENTS', 'SUPPORT',
+              'GOOGLE', 'CLOUD', 'PLATFORM', 'INTERNATIONAL', 'HOUSEOFPANCAKES', 'RESTAURANT', 'DIGITALOCEAN', 'SUBSCRIPTION', 'PAY',
+              'Recurring', 'autopay', 'REF', 'INV', 'X', 'A1', 'B2B', '24', '7', '800', '5551234', 'STRAßE', 'Café', 'ǅ']
+LONG_MIN, LONG_MAX = 40, 120
+
+
+def gen_long_desc(r):
+    """a long description (LONG_MIN..LONG_MAX characters) dense in escaped metacharacters and other punctuation, few blanks: the first
+    three words — the part the pattern is made of — are long, so whatever depends on the LENGTH of the escaped, joined pattern
+    (a cap, a wrap, a column) is exercised with a backslash, an escaped character or a joiner at any offset"""
+    target = r.randrange(LONG_MIN, LONG_MAX + 1)
+    s = r.choice(['', '', '', 'PAYPAL *', 'GOOGLE *', 'SQ *', 'TST* ', 'PP*'])
+    p_meta = r.choice([0.25, 0.45, 0.7])
+    p_space = r.choice([0.04, 0.12, 0.25])
+    while len(s) < target:
+        s += r.choice(LONG_WORDS) if r.random() < 0.8 else r.choice('XQZ') * r.randrange(1, 30)
+        k = r.random()
+        if k < p_meta:
+            s += ''.join(r.choice(META) for _ in range(r.choice([1, 1, 1, 2, 3])))
+        elif k < p_meta + 0.15:
+            s += r.choice(PUNCT)
+        elif k < p_meta + 0.15 + p_space:
+            s += r.choice(SEPS[:8])
+    return s[:target]
+
+
+def offset_sweep(r, upto, every_meta=False):
+    """for every offset n ≤ upto: a description with an escaped metacharacter at offset n of the pattern (its backslash sits at n),
+    and one with the word boundary (the \\s* joiner) at n; the rest of the word has a random length"""
+    out = []
+    for n in range(upto + 1):
+        for c in (META if every_meta else [r.choice(META)]):
+            out.append('X' * n + c + 'Y' * r.randrange(0, 40))
+            out.append('X' * (n // 2) + c + 'X' * (n - n // 2 - 2) + c + 'Y' * r.randrange(0, 40) if n >= 4 else c * (n + 1))
+        if n:
+            out.append('X' * n + ' ' + 'Y' * r.randrange(1, 40) + r.choice(['', ' Z', '.Z', ' (Z) W']))
+            a = r.randrange(1, n + 1)
+            out.append(('X' * (a - 1) + ' ' + 'W' * (n - a))[:n] + ' ' + 'Y' * r.randrange(1, 40) + ' TAIL END')
+    return out
+
+
 def gen_desc_struct_simple(r):
     s = r.choice(['', '', '', 'SQ *', 'TST* ', 'PAYPAL *']) + r.choice(MERCHANTS[:24])
     if r.random() < 0.5:
@@ -327,8 +372,8 @@ def cli_budget(descs, label):
         blocks = re.findall(r'^   (\[.*\])\n   (match: .*)\n   (category: CATEGORY)\n   (subcategory: SUBCATEGORY)$', ANSI.sub('', out), re.M)
         heads = re.findall(r'^\d+\. (.*)$', ANSI.sub('', out), re.M)
         by_head = {}
-        for x in descs:
-            by_head.setdefault(x[:60], x)
+        for x in descs:                                                  # a heading shared by two descriptions identifies neither
+            by_head[x[:60]] = x if x[:60] not in by_head else None
         if len(blocks) != len(sug) or len(heads) != len(blocks):
             fails.append({'class': 'cli:text-format-unreadable', 'path': 'cli-text', 'descriptions': descs, 'description': descs[0],
                           'observed': f'{len(blocks)} rule blocks, {len(heads)} headings for {len(sug)} suggestions',
@@ -560,6 +605,9 @@ def run(ctx):
     raw = list(WITNESSES) + [f['witness']['description'] for f in ctx.fixed_for() + ctx.findings_for()
                              if isinstance(f.get('witness'), dict) and 'description' in f['witness']]
     raw += [gen_desc(r) for _ in range(n)]
+    long_raw = [gen_long_desc(r) for _ in range(300 if ctx.quick else 20000)]
+    sweep_raw = offset_sweep(r, 100 if ctx.quick else 130, every_meta=not ctx.quick)
+    raw += long_raw + sweep_raw
     if not ctx.quick:
         raw += exhaustive_small()
     pdescs = property_descs(raw)
@@ -598,6 +646,7 @@ def run(ctx):
     budgets = [WITNESSES[:3] + ['NETFLIX', 'COSTCO #123'], ['Joe"s Diner', 'SQ *JOE"S'], ['NETFLIX', 'Starbucks', 'A\\B']]
     for _ in range(2 if ctx.quick else 14):
         budgets.append(r.sample(cli_pool, min(len(cli_pool), r.choice([1, 3, 6, 12]))))
+    budgets.append(r.sample(long_raw, 6) + r.sample(sweep_raw, 6))          # long descriptions through the command too
     for i, b in enumerate(budgets):
         b = property_descs(b)
         fs, k = cli_budget(b, f'budget{i}')
@@ -613,13 +662,23 @@ def run(ctx):
     ctx.cov['rule'] = ('descriptions: witnesses + structured ([processor prefix] merchant words… [store number / digits / state]; separators '
                        'incl. tabs, NBSP, newlines) + short strings over a hostile alphabet (regex metacharacters, quotes, backslash, '
                        'unicode with special casing) + realistic descriptions with one random edit; thorough: every string of length ≤ 4 '
-                       'over {A,space,#,1,.,\\,",newline} and ≤ 6 over {W,space,1,#}. non-trivial = at least two words or the suggested pattern '
+                       'over {A,space,#,1,.,\\,",newline} and ≤ 6 over {W,space,1,#}; + long descriptions (' + str(len(long_raw)) + f' of {LONG_MIN}–{LONG_MAX} '
+                       'characters: host names, billing paths, reference codes, dense in the characters the suggestion escapes and in / - # & :, few '
+                       'blanks) + an offset sweep (' + str(len(sweep_raw)) + ' descriptions: an escaped metacharacter — alone and after an earlier escape — and '
+                       'a word boundary at every offset 0…' + str(100 if ctx.quick else 130) + ' of the pattern), so that anything depending on the length of the '
+                       'escaped, joined pattern meets a backslash / escaped character / joiner at every offset. non-trivial = at least two words or the suggested pattern '
                        'differs from the upper-cased description. The property oracle runs on stripped non-empty NUL-free descriptions '
                        '(what parse_generic_csv hands to discover)')
     ctx.notes['model_stats'] = stats
     ctx.notes['property_failures_by_class'] = by_class
     ctx.notes['property_descriptions'] = len(pdescs)
     ctx.notes['cli_runs'] = cli_runs
+    pats = [uncps(m['pattern']) for m in model if 'pattern' in m]
+    bs_at = {i for p in pats for i, c in enumerate(p) if c == '\\'}
+    ctx.notes['pattern_lengths'] = {'max': max(map(len, pats), default=0), 'over_40': sum(len(p) > 40 for p in pats),
+                                    'over_80': sum(len(p) > 80 for p in pats),
+                                    'offsets_below_100_with_a_backslash': len([i for i in bs_at if i < 100]),
+                                    'distinct_lengths': len(set(map(len, pats)))}
     for d, m in list(zip(cdescs, model))[len(WITNESSES)::max(1, len(cdescs) // 5)]:
         if 'pattern' in m:
             ctx.sample({'description': d, 'pattern': uncps(m['pattern']), 'name': uncps(m['name']), 'model_matches': m['matches'],
@@ -627,8 +686,10 @@ def run(ctx):
 
     def search():
         out = []
-        for _ in range(20000 if ctx.quick else 100000):
-            f = oracle_one(gen_desc(r).strip() or 'X')
+        pool = offset_sweep(r, 200, every_meta=True)
+        for i in range(20000 if ctx.quick else 100000):
+            d = pool.pop() if pool and i % 2 else gen_long_desc(r) if i % 4 == 0 else gen_desc(r)
+            f = oracle_one(d.strip() or 'X')
             ctx.cov['evaluations'] += 1
             if f and not ('\x00' in f['description']):
                 out.append(f)
